@@ -131,14 +131,106 @@ struct Batch {
     fault_runs: u64,
 }
 
+
+/// Wall-clock safety net. Divergence inside the library is normally turned into a replayable
+/// panic by the fuel budget (hook H2: every arena access ticks). A loop that passes no
+/// instrumented access would hang the check instead; the watchdog reports such a run (typical
+/// runs take milliseconds, the limit is minutes) with the generated script as the replay file.
+/// The verdict of a finished run never depends on time.
+struct WatchCfg {
+    replays: String,
+    known_path: String,
+    evidence: Option<String>,
+}
+static WATCH_CFG: std::sync::OnceLock<WatchCfg> = std::sync::OnceLock::new();
+fn wall_limit_s() -> u64 {
+    std::env::var("VERIF_RUN_WALL_LIMIT").ok().and_then(|x| x.parse().ok()).unwrap_or(300)
+}
+const WALL_SIG: &str = "diverge:wall-clock";
+
+fn report_stuck(prop: &str, thorough: bool, seed: u64, profile: &str, run: u64, runs_done: u64, nontrivial_lb: u64) -> ! {
+    let limit = wall_limit_s();
+    let params = GenParams { property: prop.to_string(), tier_thorough: thorough, profile: profile.to_string() };
+    let script = generate(seed, &params, run);
+    let (replays, known_path, evidence) = match WATCH_CFG.get() {
+        Some(c) => (c.replays.clone(), c.known_path.clone(), c.evidence.clone()),
+        None => ("/verif/replays".to_string(), "/verif/KNOWN_FINDINGS.txt".to_string(), None),
+    };
+    let sig = format!("{prop}:{WALL_SIG}");
+    let detail = format!("run {run} did not finish within {limit} s of wall-clock time (a typical run takes milliseconds): a library call does not terminate and passes no fuel-instrumented arena access");
+    let _ = std::fs::create_dir_all(&replays);
+    let path = format!("{replays}/{prop}-{seed}-{run}-stuck.json");
+    let rf = ReplayFile {
+        property: prop.to_string(),
+        signature: sig.clone(),
+        detail: detail.clone(),
+        found_at: format!("VERIF_SEED={seed} run={run} tier={} profile={profile}", if thorough { "thorough" } else { "quick" }),
+        shrink_candidates_run: 0,
+        original_steps: script.steps.len(),
+        script,
+    };
+    let _ = std::fs::write(&path, serde_json::to_string_pretty(&rf).unwrap());
+    let exe = std::env::current_exe().expect("current exe");
+    let out = std::process::Command::new(exe).arg("replay").arg(&path).arg("--known").arg(&known_path).output();
+    let confirmed = match &out {
+        Ok(o) => o.status.code() == Some(1) && String::from_utf8_lossy(&o.stdout).contains(WALL_SIG),
+        Err(_) => false,
+    };
+    println!("violation: {sig} in run {run}: {detail}");
+    println!("not minimised (the run does not terminate); replay confirmed in a fresh process: {confirmed}");
+    if let Some(ev) = evidence {
+        let e = serde_json::json!({
+            "property_id": prop, "tier": if thorough { "thorough" } else { "quick" }, "seed": seed, "level": level_of(prop), "wall_s": limit as f64, "violations": 1,
+            "coverage": {"evaluations": runs_done, "distinct_nontrivial": nontrivial_lb, "rule": "batch aborted by the wall-clock watchdog: evaluations = runs finished by then; distinct_nontrivial = the largest per-worker count of distinct non-trivial scripts (a lower bound of the batch's count; non-trivial = at least 3 state-changing steps and at least one rare probe hit)", "samples": [sample_script(seed, prop, thorough, profile, run)],
+                "engine": "sim (seeded scripts, per-step oracles)", "violation": {"signature": sig, "run": run, "replay": path, "confirmed": confirmed}},
+        });
+        let _ = std::fs::write(ev, serde_json::to_string_pretty(&e).unwrap());
+    }
+    if confirmed {
+        println!("VIOLATION property={prop} replay={path}");
+        std::process::exit(1);
+    }
+    eprintln!("sim: harness error: run {run} exceeded the wall-clock limit but its replay did not");
+    std::process::exit(2);
+}
+
 fn run_batch(prop: &str, thorough: bool, seed: u64, runs: u64, threads: usize, profile: &str, known: Arc<Vec<known::Finding>>, keep_log: bool) -> Batch {
     let params = Arc::new(GenParams { property: prop.to_string(), tier_thorough: thorough, profile: profile.to_string() });
     let stop = Arc::new(std::sync::atomic::AtomicU64::new(u64::MAX));
     let mut handles = vec![];
+    // (run index or MAX, start in ms since t0) per worker, for the wall-clock watchdog
+    let progress: Arc<Vec<(std::sync::atomic::AtomicU64, std::sync::atomic::AtomicU64)>> =
+        Arc::new((0..threads).map(|_| (std::sync::atomic::AtomicU64::new(u64::MAX), std::sync::atomic::AtomicU64::new(0))).collect());
+    // (runs finished, distinct non-trivial scripts) per worker
+    let counts: Arc<Vec<(std::sync::atomic::AtomicU64, std::sync::atomic::AtomicU64)>> =
+        Arc::new((0..threads).map(|_| (std::sync::atomic::AtomicU64::new(0), std::sync::atomic::AtomicU64::new(0))).collect());
+    let t0 = std::time::Instant::now();
+    let all_done = Arc::new(std::sync::atomic::AtomicBool::new(false));
+    {
+        let (progress, counts, all_done, prop, profile) = (progress.clone(), counts.clone(), all_done.clone(), prop.to_string(), profile.to_string());
+        std::thread::spawn(move || {
+            let limit_ms = wall_limit_s() * 1000;
+            while !all_done.load(std::sync::atomic::Ordering::Relaxed) {
+                std::thread::sleep(std::time::Duration::from_millis(500));
+                let now = t0.elapsed().as_millis() as u64;
+                for (run, start) in progress.iter() {
+                    let r = run.load(std::sync::atomic::Ordering::SeqCst);
+                    let st = start.load(std::sync::atomic::Ordering::SeqCst);
+                    if r != u64::MAX && now.saturating_sub(st) > limit_ms && run.load(std::sync::atomic::Ordering::SeqCst) == r {
+                        let done: u64 = counts.iter().map(|c| c.0.load(std::sync::atomic::Ordering::Relaxed)).sum();
+                        let nt: u64 = counts.iter().map(|c| c.1.load(std::sync::atomic::Ordering::Relaxed)).max().unwrap_or(0);
+                        report_stuck(&prop, thorough, seed, &profile, r, done, nt);
+                    }
+                }
+            }
+        });
+    }
     for tid in 0..threads {
         let params = params.clone();
         let known = known.clone();
         let stop = stop.clone();
+        let progress = progress.clone();
+        let counts = counts.clone();
         handles.push(
             std::thread::Builder::new()
                 .stack_size(64 << 20)
@@ -164,7 +256,10 @@ fn run_batch(prop: &str, thorough: bool, seed: u64, runs: u64, threads: usize, p
                             break;
                         }
                         let s = generate(seed, &params, i);
+                        progress[tid].1.store(t0.elapsed().as_millis() as u64, std::sync::atomic::Ordering::SeqCst);
+                        progress[tid].0.store(i, std::sync::atomic::Ordering::SeqCst);
                         let r: RunResult = run_script(&s, known.clone());
+                        progress[tid].0.store(u64::MAX, std::sync::atomic::Ordering::SeqCst);
                         b.runs += 1;
                         *b.by_ptype.entry(format!("{:?}", s.cfg.ptype)).or_insert(0) += 1;
                         *b.by_family.entry(s.cfg.family.clone()).or_insert(0) += 1;
@@ -199,6 +294,8 @@ fn run_batch(prop: &str, thorough: bool, seed: u64, runs: u64, threads: usize, p
                             }
                         }
                         b.stats.merge(&r.stats);
+                        counts[tid].0.store(b.runs, std::sync::atomic::Ordering::Relaxed);
+                        counts[tid].1.store(b.nontrivial.len() as u64, std::sync::atomic::Ordering::Relaxed);
                         i += threads as u64;
                     }
                     b
@@ -219,8 +316,11 @@ fn run_batch(prop: &str, thorough: bool, seed: u64, runs: u64, threads: usize, p
         by_family: BTreeMap::new(),
         fault_runs: 0,
     };
-    for h in handles {
+    for (n, h) in handles.into_iter().enumerate() {
         let b = h.join().expect("worker thread");
+        if n + 1 == threads {
+            all_done.store(true, std::sync::atomic::Ordering::Relaxed);
+        }
         total.stats.merge(&b.stats);
         total.runs += b.runs;
         total.foreign += b.foreign;
@@ -274,6 +374,7 @@ fn cmd_run(a: &Args) -> i32 {
     let known_path = a.opts.get("known").cloned().unwrap_or_else(|| "/verif/KNOWN_FINDINGS.txt".into());
     let replays = a.opts.get("replays").cloned().unwrap_or_else(|| "/verif/replays".into());
     let known = Arc::new(known::load(&known_path));
+    let _ = WATCH_CFG.set(WatchCfg { replays: replays.clone(), known_path: known_path.clone(), evidence: Some(a.opts.get("evidence").cloned().unwrap_or_else(|| format!("/verif/evidence/{prop}.json"))) });
     let t0 = std::time::Instant::now();
     println!("sim: property={prop} tier={} VERIF_SEED={seed} runs={runs} threads={threads} profile={profile}", if thorough { "thorough" } else { "quick" });
     let b = run_batch(&prop, thorough, seed, runs, threads, &profile, known.clone(), false);
@@ -416,6 +517,15 @@ fn cmd_replay(a: &Args) -> i32 {
         }
     };
     ctx::set_quiet(true);
+    {
+        let (prop, path) = (rf.property.clone(), path.clone());
+        std::thread::spawn(move || {
+            std::thread::sleep(std::time::Duration::from_secs(wall_limit_s()));
+            println!("replay: violation sig={prop}:{WALL_SIG} :: the replayed run did not finish within {} s of wall-clock time", wall_limit_s());
+            println!("VIOLATION property={prop} replay={path}");
+            std::process::exit(1);
+        });
+    }
     let r = run_script(&rf.script, known);
     match r.outcome {
         Outcome::Violation(v) | Outcome::Known(v) => {
